@@ -138,6 +138,8 @@ theorem lexStep_excess {α} (I : Interp α) (t : Table) (lm : Str → Option Nat
             split at h
             · cases h
             · rename_i opTok hop
+              split at h
+              · cases h
               cases h
               obtain ⟨o, ho⟩ := findOpOfComma_isOp _ _ hi
               rw [ho] at hop
